@@ -5,12 +5,12 @@ The statements quantify over every store (so over every out-of-band edit and del
 every bystander), every pair of manifests and every flag combination.  "The cluster accepted
 every request" is the model's standing assumption: the only refusals are ownership conflicts.
 
-The full statement is FALSE of the code in three places, each proved here as a counterexample
+The full statement is FALSE of the code in one place, each proved here as a counterexample
 and replayed on the implementation by the correspondence (known findings):
   * unstructured kinds are patched two-way (old manifest vs new manifest), so an out-of-band
     edit of a field both manifests agree on is not reverted      (`unstructured_drift_not_reverted`)
-  * uninstall leaves, and does not list, a resource whose resource-policy annotation has a
-    value other than keep                                          (`uninstall_other_policy_left`)
+  (a second place -- uninstall left, and did not list, a resource whose resource-policy
+  annotation had a value other than keep -- was repaired in /repo: `keepClass_total`)
 The theorems therefore carry the hypothesis `fullMerge` (replace, typed kind, or three-way
 merge requested) where fields are concerned, and `keepClass` for uninstall.
 -/
@@ -370,12 +370,19 @@ theorem counterexample_unstructured_drift_not_reverted :
 
 def withPolicy : Obj := { key := "x/default/p", annos := [(policyAnno, "delete")] }
 
-/-- Uninstall neither deletes nor lists a resource whose resource-policy annotation has a
-value other than keep. -/
-theorem counterexample_uninstall_other_policy_left :
-    (uninstallCluster [withPolicy] [withPolicy]).store = [withPolicy] ∧
+/-- Every resource of the manifest is either deleted or kept and listed: there is no third class
+(before the repair `fix: uninstall deletes resources whose resource-policy annotation is not keep`
+a resource-policy value other than keep put the resource in neither list). -/
+theorem keepClass_total (o : Obj) : keepClass o = some true ∨ keepClass o = some false := by
+  unfold keepClass
+  cases o.annos.get? policyAnno with
+  | none => exact Or.inr rfl
+  | some v => simp only; split <;> simp
+
+theorem uninstall_other_policy_deleted :
+    (uninstallCluster [withPolicy] [withPolicy]).store = [] ∧
     (uninstallCluster [withPolicy] [withPolicy]).kept = [] ∧
-    (uninstallCluster [withPolicy] [withPolicy]).log = [] := by decide
+    (uninstallCluster [withPolicy] [withPolicy]).log = [.delete "x/default/p"] := by decide
 
 /-- non-vacuity: a successful upgrade that creates, patches a drifted typed object and deletes -/
 example :
